@@ -49,7 +49,10 @@ RECURSIVE PathSum(_, _, _)
 PathSum(G, p, k) == IF k > Len(p) THEN 0 ELSE (k * 7 + 3) * ElemNum(G, p[k]) + PathSum(G, p, k + 1)
 Hash(G, p, salt) == (PathSum(G, p, 1) + salt) % G.mod
 ResGated(G, p) == Hash(G, p, G.salt) < G.thr                    \* the resolver at field position p returns an awaitable
-ListAwaitables(G, p) == Hash(G, p, G.salt + 5) % 2 = 0          \* the list produced at p may carry awaitable items
+ListMode(G, p) == Hash(G, p, G.salt + 5) % 3                    \* of a list produced by a resolver: 0 awaitable items, 1 plain, 2 async iterator
+ListAwaitables(G, p) == ListMode(G, p) = 0
+ListAsyncIter(G, p) == ListMode(G, p) = 2
+StepGated(G, p, k) == Hash(G, Append(p, [i |-> k]), G.salt + 17) < G.thr   \* the k-th __anext__ of the async iterator at p waits for the environment
 ItemGated(G, p) == Hash(G, p, G.salt + 11) < G.thr              \* the item at position p is an awaitable
 
 \* ---- the position tree --------------------------------------------------------
@@ -79,7 +82,8 @@ TreeVal(R, G, ty, fs, oc, path, gate, top) ==
        (IF oc.t # "l" THEN leafNode("bad", Null)
         ELSE LET kp == [i \in 1..Len(oc.v) |-> Append(path, [i |-> i - 1])]
                  aw == top /\ ListAwaitables(G, path)
-             IN {Nd(path, nn, gate, "list", Null, kp)} \cup
+                 ai == top /\ ListAsyncIter(G, path)          \* kind "alist": the value is an async iterator over the items
+             IN {Nd(path, nn, gate, IF ai THEN "alist" ELSE "list", Null, kp)} \cup
                 UNION {TreeVal(R, G, t[2], fs, oc.v[i], kp[i], aw /\ ItemGated(G, kp[i]), FALSE) : i \in 1..Len(oc.v)})
   ELSE LET S == R.schema kind == S.types[Named(t)].kind IN
        IF kind = "SCALAR" THEN (IF LeafOK(S, Named(t), oc) THEN leafNode("leaf", oc.v) ELSE leafNode("bad", Null))
@@ -120,7 +124,17 @@ TreeOf(R0) ==
 \* null      completed: legit null  enull    completed: null with an error recorded here
 \* fail      raised to the parent   cancelled
 \* rawwait   an awaitable item drained from a failed list, settled in the background; rawdone
-Active(x) == x \in {"wait", "run"}
+\* async iterator lists (complete_async_iterator_value is a coroutine):
+\* spawn     the coroutine exists but has not run yet (it runs in the same turn, after the synchronous cascade)
+\* iter<k>   it awaits the k-th __anext__ (a gate of its own, written path \o <<[n |-> k]>>)
+\* latent    a gate below an item that was completed during the iteration: its coroutine is only started when the
+\*           iteration ends (gather) or is abandoned (settle_in_background)
+IterSt(k) == "iter" \o ToString(k)
+MaxIter == 8
+IsIter(x) == \E k \in 0..MaxIter : x = IterSt(k)
+IterIdx(x) == CHOOSE k \in 0..MaxIter : x = IterSt(k)
+Active(x) == x \in {"wait", "run", "spawn", "latent", "lspawn"} \/ IsIter(x)      \* lspawn: a latent async-iterator coroutine
+IsPrefixOf(a, b) == Len(a) <= Len(b) /\ SubSeq(b, 1, Len(a)) = a
 Final(x) == x \in {"val", "null", "enull", "fail"}
 Parent(p) == SubSeq(p, 1, Len(p) - 1)
 FailAt(T, S, p) == [S EXCEPT ![p] = IF T[p].nn THEN "fail" ELSE "enull"]
@@ -136,6 +150,7 @@ CompleteNow(T, S, p) ==
   ELSE IF n.kind = "null" THEN (IF n.nn THEN FailAt(T, S, p) ELSE [S EXCEPT ![p] = "null"])
   ELSE IF n.kind = "leaf" THEN [S EXCEPT ![p] = "val"]
   ELSE IF n.kind = "obj" THEN ExecKids(T, S, p, 1)
+  ELSE IF n.kind = "alist" THEN [S EXCEPT ![p] = "spawn"]
   ELSE ListItems(T, S, p, 1)
 
 \* execute_fields
@@ -170,9 +185,14 @@ ExecSerial(T, S, i) ==
 \* cancellation travels along awaited work only
 RECURSIVE CancelSub(_, _, _), CancelList(_, _, _)
 CancelList(T, S, ps) == IF ps = <<>> THEN S ELSE CancelList(T, CancelSub(T, S, Head(ps)), Tail(ps))
+Unlatent(S, p) == [q \in DOMAIN S |-> IF IsPrefixOf(p, q) /\ S[q] = "latent" THEN "wait"
+                                       ELSE IF IsPrefixOf(p, q) /\ S[q] = "lspawn" THEN "spawn" ELSE S[q]]
 CancelSub(T, S, k) ==
-  IF S[k] = "wait" THEN [S EXCEPT ![k] = "cancelled"]
+  IF S[k] \in {"wait", "latent", "lspawn"} THEN [S EXCEPT ![k] = "cancelled"]
   ELSE IF S[k] = "run" THEN CancelList(T, [S EXCEPT ![k] = "cancelled"], T[k].kids)
+  \* an iteration that is cancelled leaves the awaitables it has collected to settle in the background
+  ELSE IF IsIter(S[k]) THEN Unlatent([S EXCEPT ![k] = "cancelled"], k)
+  ELSE IF S[k] = "spawn" THEN [S EXCEPT ![k] = "cancelled"]
   ELSE S
 
 IndexOf(q, x) == CHOOSE j \in 1..Len(q) : q[j] = x
@@ -190,14 +210,44 @@ Propagate(T, S, p, serial) ==
        ELSE IF \E j \in 1..Len(T[q].kids) : Active(S[T[q].kids[j]]) THEN S
        ELSE Propagate(T, [S EXCEPT ![q] = "val"], q, serial)
 
-Pending(S) == {p \in DOMAIN S : S[p] \in {"wait", "rawwait"}}
-Settle(T, S, g, serial) ==
-  IF S[g] = "rawwait" THEN [S EXCEPT ![g] = "rawdone"]
-  ELSE Propagate(T, CompleteNow(T, S, g), g, serial)
+\* complete_async_iterator_value from its k-th step on
+RECURSIVE AIterFrom(_, _, _, _, _, _), AIterStep(_, _, _, _, _, _)
+AIterFrom(T, G, S, p, k, serial) ==
+  IF StepGated(G, p, k) THEN [S EXCEPT ![p] = IterSt(k)] ELSE AIterStep(T, G, S, p, k, serial)
+\* the k-th __anext__ has returned
+AIterStep(T, G, S, p, k, serial) ==
+  LET ks == T[p].kids IN
+  IF k >= Len(ks)
+  THEN Propagate(T, AfterKids(T, Unlatent(S, p), p), p, serial)                    \* StopAsyncIteration: await the collected items
+  ELSE LET item == ks[k + 1]
+           S1 == CompleteNow(T, S, item)
+       IN IF S1[item] = "fail"
+          THEN Propagate(T, FailAt(T, Unlatent(S1, p), p), p, serial)               \* the iteration is abandoned
+          \* gates below the item that the item still awaits stay latent; those of a subtree that failed synchronously were
+          \* handed to settle_in_background and are started at once
+          ELSE AIterFrom(T, G, [q \in DOMAIN S1 |-> IF S[q] = "idle" /\ S1[q] \in {"wait", "spawn"} /\ IsPrefixOf(item, q)
+                                                       /\ (\A j \in Len(item)..(Len(q) - 1) : S1[SubSeq(q, 1, j)] = "run")
+                                                    THEN (IF S1[q] = "wait" THEN "latent" ELSE "lspawn") ELSE S1[q]],
+                         p, k + 1, serial)
 
-Start(T, serial) ==
+\* the coroutines created in this turn run (each may create more)
+RECURSIVE Drain(_, _, _, _)
+Drain(T, G, S, serial) ==
+  IF \A p \in DOMAIN S : S[p] # "spawn" THEN S
+  ELSE LET p == CHOOSE q \in DOMAIN S : S[q] = "spawn" IN Drain(T, G, AIterFrom(T, G, S, p, 0, serial), serial)
+
+IterGate(p, k) == Append(p, [n |-> k])
+Pending(S) == {p \in DOMAIN S : S[p] \in {"wait", "rawwait"}} \cup {IterGate(p, IterIdx(S[p])) : p \in {q \in DOMAIN S : IsIter(S[q])}}
+IsIterGate(g) == g # <<>> /\ "n" \in DOMAIN g[Len(g)]
+GatePos(g) == IF IsIterGate(g) THEN SubSeq(g, 1, Len(g) - 1) ELSE g
+Settle(T, G, S, g, serial) ==
+  IF IsIterGate(g) THEN Drain(T, G, AIterStep(T, G, S, GatePos(g), g[Len(g)].n, serial), serial)
+  ELSE IF S[g] = "rawwait" THEN [S EXCEPT ![g] = "rawdone"]
+  ELSE Drain(T, G, Propagate(T, CompleteNow(T, S, g), g, serial), serial)
+
+Start(T, G, serial) ==
   LET S0 == [p \in DOMAIN T |-> "idle"] IN
-  IF serial THEN ExecSerial(T, S0, 1) ELSE ExecKids(T, S0, <<>>, 1)
+  Drain(T, G, IF serial THEN ExecSerial(T, S0, 1) ELSE ExecKids(T, S0, <<>>, 1), serial)
 
 \* ---- the response ----------------------------------------------------------------
 Ready(S) == Final(S[<<>>])
@@ -207,7 +257,7 @@ DataAt(T, S, p) ==
   ELSE LET n == T[p] IN
        IF n.kind = "leaf" THEN n.v
        ELSE IF n.kind = "obj" THEN [t |-> "o", kv |-> [i \in 1..Len(n.kids) |-> <<n.kids[i][Len(n.kids[i])].s, DataAt(T, S, n.kids[i])>>]]
-       ELSE [t |-> "l", v |-> [i \in 1..Len(n.kids) |-> DataAt(T, S, n.kids[i])]]
+       ELSE [t |-> "l", v |-> [i \in 1..Len(n.kids) |-> DataAt(T, S, n.kids[i])]]      \* "list" and "alist"
 Visible(S, p) == \A k \in 0..(Len(p) - 1) : S[SubSeq(p, 1, k)] = "val"
 Nulled(S) == {p \in DOMAIN S : S[p] = "enull" /\ Visible(S, p)} \cup (IF S[<<>>] = "fail" THEN {<<>>} ELSE {})
 Response(T, S) == [data |-> DataAt(T, S, <<>>), nulled |-> Nulled(S)]
@@ -219,5 +269,5 @@ ConfluentWith(T, S, spec) ==        \* spec = Execute(R0)
               /\ Nulled(S) = NulledPositions([data |-> spec.data, errors |-> spec.errors])
 NoHang(S) == ~Ready(S) => Pending(S) # {}
 SerialRoots(T, S, serial) == serial => Cardinality({j \in 1..Len(T[<<>>].kids) : Active(S[T[<<>>].kids[j]])}) <= 1
-OnlyOrphansAfterReady(S) == Ready(S) => \A p \in Pending(S) : ~Awaited(S, p)
+OnlyOrphansAfterReady(S) == Ready(S) => \A g \in Pending(S) : ~(Awaited(S, GatePos(g)) /\ (IsIterGate(g) => TRUE))
 =============================================================================
